@@ -1,7 +1,9 @@
 (* Model of ForestVisitor.visit (lark/parsers/earley_forest.py) on finite, possibly cyclic
    forest graphs.  Executable definitions only; proofs in Visit_proofs.v.
 
-   The walk is generic in what the visit_*_in callbacks return: [sel history node] is the list
+   The walk is generic in what the visit_*_in callbacks return - an iterable of nodes ([RNodes], None/empty =
+   [RNodes []]) or a single node ([ROne], the `else` branch of visit() that tests id(next_node) in visiting and
+   pushes the node itself instead of an iterator): [sel history node] is that return value, [sel_kids] the list
    of nodes a callback hands back for [node], as a function of the events so far (this covers
    stateful visitors such as ForestToParseTree).  Events are the callbacks made.
 
@@ -27,10 +29,16 @@ Fixpoint memn (x : nat) (l : list nat) : bool :=
 
 Definition vstate := (list event * list nat)%type.     (* events so far, visited *)
 
+(* what a visit_*_in callback handed back *)
+Inductive vret : Type :=
+| RNodes (ks : list nat)     (* an iterable of nodes (None entries dropped); None / nothing = RNodes [] *)
+| ROne (c : nat).            (* a single ForestNode *)
+Definition sel_kids (r : vret) : list nat := match r with RNodes ks => ks | ROne c => [c] end.
+
 Section Visit.
   Variable g : vgraph.
   Variable single : bool.                               (* ForestVisitor.single_visit *)
-  Variable sel : list event -> nat -> list nat.
+  Variable sel : list event -> nat -> vret.
 
   (* ---- recursive model ------------------------------------------------------------ *)
   (* the nodes a callback returned, in order: a node already on the path is reported through
@@ -56,7 +64,7 @@ Section Visit.
             else
               let path' := path ++ [n] in
               let tr1 := fst st ++ [EIn n] in
-              rbind (fold_kids (visit_rec f path') path' (sel tr1 n) (tr1, snd st))
+              rbind (fold_kids (visit_rec f path') path' (sel_kids (sel tr1 n)) (tr1, snd st))
                     (fun st2 => Ok (fst st2 ++ [EOut n], n :: snd st2))
         end
     end.
@@ -89,7 +97,14 @@ Section Visit.
             else if single && memn n (l_visited s)
             then Running (mkL stk (l_path s) (l_visited s) (l_trace s))
             else let tr1 := l_trace s ++ [EIn n] in
-                 Running (mkL (FIter (sel tr1 n) :: FNode n :: stk) (l_path s ++ [n]) (l_visited s) tr1)
+                 let path' := l_path s ++ [n] in
+                 match sel tr1 n with
+                 | RNodes ks => Running (mkL (FIter ks :: FNode n :: stk) path' (l_visited s) tr1)
+                 | ROne c =>                                  (* elif id(next_node) in visiting: oc(...); continue *)
+                     if memn c path'
+                     then Running (mkL (FNode n :: stk) path' (l_visited s) (tr1 ++ [ECycle c path']))
+                     else Running (mkL (FNode c :: FNode n :: stk) path' (l_visited s) tr1)
+                 end
         end
     end.
 
